@@ -23,7 +23,8 @@ def _rat(p):
 
 
 class Shim:
-    def __init__(self, script=None):
+    def __init__(self, script=None, randint_max=False):
+        self.randint_max = randint_max  # answer randint with the LARGEST value of the range actually asked for
         self.calls = []                 # normalised call descriptors + outcomes
         self.script = list(script) if script is not None else None
         self.pos = 0
@@ -84,6 +85,8 @@ class Shim:
         else:
             out = np.int64(self._next())
         a = int(low) if high is None else int(high) - int(low)
+        if self.script is not None and self.randint_max and a > 0:
+            out = np.int64((0 if high is None else int(low)) + a - 1)    # a legal outcome of THIS call
         self.calls.append({"fn": "randint", "n": 0, "p": [0, 1], "a": a, "size": 0,
                            "out": int(out) if size is None else [int(x) for x in np.asarray(out).reshape(-1)]})
         return out
@@ -96,8 +99,8 @@ class Shim:
 
 
 @contextlib.contextmanager
-def active(script=None):
-    sh = Shim(script)
+def active(script=None, randint_max=False):
+    sh = Shim(script, randint_max)
     for f in FUNCS:
         sh._orig[f] = getattr(np.random, f)
         setattr(np.random, f, getattr(sh, f))
